@@ -181,6 +181,56 @@ func verifC19Case(line string) string {
 			return "unexpected-request-count"
 		}
 		return "ok " + rec.reqs[0]
+	case (f[0] == "provseq" || f[0] == "provhttpseq") && len(f) == 3:
+		// the providers of several remote clusters asked one after the other on behalf of ONE
+		// incoming request: one context, one *auth.Credentials object
+		tokens, table := verifC19ParseToks(f[2])
+		original := append([]string(nil), tokens...)
+		local := &verifC19Local{APIStub: &arvadostest.APIStub{}, table: table}
+		creds := &auth.Credentials{Tokens: tokens}
+		ctx := auth.NewContext(context.Background(), creds)
+		var outs []string
+		for _, rh := range strings.Split(f[1], ";") {
+			remote := verifc19.Unhex(rh)
+			tp := saltedTokenProvider(local, remote)
+			if f[0] == "provseq" {
+				out, err := tp(ctx)
+				if err != nil {
+					outs = append(outs, verifC19Err(err))
+				} else {
+					outs = append(outs, "ok "+verifc19.HexList(out))
+				}
+				continue
+			}
+			rec := &verifC19Recorder{}
+			srv := httptest.NewServer(rec)
+			u, _ := url.Parse(srv.URL)
+			conn := rpc.NewConn(remote, u, false, tp)
+			_, err := conn.CollectionGet(ctx, arvados.GetOptions{UUID: "zrmte-4zz18-000000000000000"})
+			srv.Close()
+			switch {
+			case err != nil && len(rec.reqs) != 0:
+				outs = append(outs, "error-after-request "+verifc19.Hex(err.Error()))
+			case err != nil:
+				outs = append(outs, verifC19Err(err))
+			case len(rec.reqs) != 1:
+				outs = append(outs, "unexpected-request-count")
+			default:
+				outs = append(outs, "ok "+rec.reqs[0])
+			}
+		}
+		// what the request context holds afterwards
+		ctxField := "ctx=same"
+		if len(creds.Tokens) != len(original) {
+			ctxField = "ctx=" + verifc19.HexList(creds.Tokens)
+		} else {
+			for i := range original {
+				if creds.Tokens[i] != original[i] {
+					ctxField = "ctx=" + verifc19.HexList(creds.Tokens)
+				}
+			}
+		}
+		return strings.Join(outs, "|") + "|" + ctxField
 	case (f[0] == "prov" || f[0] == "provhttp") && len(f) == 3:
 		remote := verifc19.Unhex(f[1])
 		tokens, table := verifC19ParseToks(f[2])
